@@ -75,11 +75,23 @@ def _scene_specs():
             dict(kind="field", box=[[1, 2], [1, 2], [3, 4]], reduce_volume=False, switch={"fixed_on_time_steps": [1, 4, 5]}),
         ],
     )
+    # dispersive medium: the polarisation (current and previous step) is time-dependent state as well
+    S["periodic_dispersive"] = dict(
+        shape=[3, 3, 4], faces={"min_x": "periodic", "max_x": "periodic", **per_yz},
+        vol_poles=[dict(kind="lorentz", w0dt=0.3, gdt=0.05, de=1.5), dict(kind="drude", wpdt=0.2, gdt=0.02)], vol_eps_inf=2.0,
+        sources=[dict(kind="dipole", box=[[1, 2], [1, 2], [1, 2]], polarization=2, wave=W, switch={"fixed_on_time_steps": [0, 1, 3, 4]})],
+        detectors=[
+            dict(kind="field", box=[[1, 2], [1, 2], [2, 3]], reduce_volume=False, switch={"interval": 2}),
+            dict(kind="energy", box=[[0, 3], [0, 3], [0, 4]], reduce_volume=True),
+        ],
+    )
     return S
 
 
 def _menu(tier):
-    return [("pmlx_switched", 6)] if tier == "quick" else [("pmlx_switched", 10), ("pml_all_plane", 10), ("pmlz_walls_sigma", 10)]
+    if tier == "quick":
+        return [("pmlx_switched", 6), ("periodic_dispersive", 5)]
+    return [("pmlx_switched", 10), ("pml_all_plane", 10), ("pmlz_walls_sigma", 10), ("periodic_dispersive", 8)]
 
 
 def cases(tier, seed):
